@@ -61,6 +61,12 @@ def makeRoom : Nat → Ref → Time → Ref
       | none => r
     else r
 
+/-- put a freshly stored entry in front (most recently used), stamped with the next sequence number -/
+def insertEntry (r : Ref) (k : Key) (v : Val) (trigs : List Key) (d : Time) (gen : Option Gen) : Ref :=
+  { r with entries := ⟨k, v, ownTrigs k trigs, d, gen.getD r.generation, r.nextSeq⟩ :: r.entries,
+           nextSeq := r.nextSeq + 1,
+           generation := if gen.isNone then r.generation + 1 else r.generation }
+
 def step (r : Ref) : Op → Ref × Out
   | .fetch now k =>
     match r.find k with
@@ -73,9 +79,7 @@ def step (r : Ref) : Op → Ref × Out
   | .store now k v trigs d gen _ =>
     let r1 := r.drop k
     let r2 := makeRoom r1.entries.length r1 now
-    let e : REntry := ⟨k, v, ownTrigs k trigs, d, gen.getD r2.generation, r2.nextSeq⟩
-    ({ r2 with entries := e :: r2.entries, nextSeq := r2.nextSeq + 1,
-               generation := if gen.isNone then r2.generation + 1 else r2.generation }, .done)
+    (r2.insertEntry k v trigs d gen, .done)
   | .rise t => ({ r with entries := r.entries.filter (fun e => !e.trigs.contains t) }, .done)
   | .remove k => (r.drop k, .done)
   | .clear => ({ r with entries := [] }, .done)
